@@ -143,6 +143,9 @@ impl Builtins {
                         let mut vm =
                             VM::with_pointer(self.strict, op_pointer, base_path)
                                 .with_import_stack(import_stack.clone());
+                        // The one-output-per-file lock only guards a single evaluation
+                        // of the imported file; it may have been built on its own before.
+                        env.borrow_mut().reset_out_lock_for_path(&normalized);
                         vm.run(env)?;
                         let result = Rc::new(vm.symbols_to_tuple(true));
                         env.borrow_mut()
